@@ -17,6 +17,7 @@ import unyt  # noqa: E402
 from unyt import Unit, unyt_array, unyt_quantity  # noqa: E402
 
 import lib_c18_ops as L  # noqa: E402
+import lib_c17_equiv as LE  # noqa: E402
 
 R = Run("C17",
         "dtypes int8..int64, uint8..uint64, float16/32/64, longdouble, complex64/128 x conversion routes (to, in_units, "
@@ -686,7 +687,8 @@ def binary_case(name, da, db, va, vb, ua, ub, pclass, scalar, tag, dt, first):
                      va, da, ua, vb, db, ub, name, L.float_for(da).str))
 
 
-SECTIONS = [("conversions", run_conversions), ("base", run_base), ("equivalence", run_equivalence), ("warnings", run_warnings), ("binary", run_binary)]
+SECTIONS = [("conversions", run_conversions), ("base", run_base), ("equivalence", run_equivalence), ("equivalence-integer", lambda: LE.run(R, SEED)),
+            ("warnings", run_warnings), ("binary", run_binary)]
 only = os.environ.get("C17_ONLY")
 for sname, fn in SECTIONS:
     if only and sname not in only.split(","):
